@@ -388,6 +388,12 @@ func parseHeaders(data []byte, live []rioWritten) []hdrInfo {
 }
 
 func readAllSeq(path string, readBuf int) (recs [][]byte, nils []bool, openErr, readErr error) {
+	defer func() {
+		if r := recover(); r != nil {
+			// a panic on damaged input returns no data; it is handed back as a read error
+			readErr = fmt.Errorf("panic while reading: %v", r)
+		}
+	}()
 	rd, err := recordio.NewFileReader(recordio.ReaderPath(path), recordio.ReaderBufferSizeBytes(readBuf))
 	if err != nil {
 		return nil, nil, err, nil
